@@ -287,7 +287,7 @@ func (d *Data) handleSyncMessage(ctx *datastore.VersionedCtx, msg datastore.Sync
 
 	case labelmap.IngestedBlock:
 		chunkPt, _ := delta.BCoord.ToChunkPoint3d()
-		data, _ := delta.Data.MakeLabelVolume()
+		data, _ := d.bodyLabelBlock(ctx.VersionID(), delta.Data).MakeLabelVolume()
 		d.ingestBlock(ctx, chunkPt, data, batcher)
 		mutID = delta.MutID
 
@@ -300,8 +300,8 @@ func (d *Data) handleSyncMessage(ctx *datastore.VersionedCtx, msg datastore.Sync
 
 	case labelmap.MutatedBlock:
 		chunkPt, _ := delta.BCoord.ToChunkPoint3d()
-		prev, _ := delta.Prev.MakeLabelVolume()
-		data, _ := delta.Data.MakeLabelVolume()
+		prev, _ := d.bodyLabelBlock(ctx.VersionID(), delta.Prev).MakeLabelVolume()
+		data, _ := d.bodyLabelBlock(ctx.VersionID(), delta.Data).MakeLabelVolume()
 		d.mutateBlock(ctx, delta.MutID, chunkPt, prev, data, batcher)
 		mutID = delta.MutID
 
@@ -362,6 +362,25 @@ func (d *Data) handleSyncMessage(ctx *datastore.VersionedCtx, msg datastore.Sync
 		}
 		storage.LogActivityToKafka(activity)
 	}
+}
+
+// bodyLabelBlock returns the block with its supervoxel ids replaced by the body labels they map to
+// in the synced labelmap at the given version.  labelmap block events carry supervoxel ids, while
+// annotations are filed under body labels.  The event's block is shared with other subscribers, so
+// only a shallow copy gets the translated label table.
+func (d *Data) bodyLabelBlock(v dvid.VersionID, block *labels.Block) *labels.Block {
+	lm, ok := d.getSyncedLabels().(*labelmap.Data)
+	if !ok || block == nil || len(block.Labels) == 0 {
+		return block
+	}
+	mapped, _, err := lm.GetMappedLabels(v, block.Labels)
+	if err != nil {
+		dvid.Errorf("annotation %q: can't map supervoxels of synced block to labels: %v\n", d.DataName(), err)
+		return block
+	}
+	translated := *block
+	translated.Labels = mapped
+	return &translated
 }
 
 // If a block of labels is ingested, adjust each label's synaptic element list.
